@@ -14,6 +14,7 @@
 -/
 import PgVerif.Proofs.Isolation
 import PgVerif.Model.Rows
+import PgVerif.Proofs.InlineComp
 namespace PgVerif.Proofs.Isolation
 open PgVerif PgVerif.Model PgVerif.Proofs
 
@@ -238,18 +239,36 @@ theorem readVarlena_prefix {R R' : Bytes} {k : Nat} (h : SameUpTo R R' k) (x : O
             by_cases hf : rd 4 (R.drop 0) / 4 < 4 ∨ R.length < rd 4 (R.drop 0) / 4
             · rw [if_pos hf] at hr; simp only [pure_eq_ok, Except.ok.injEq, Prod.mk.injEq] at hr; omega
             · rw [if_neg hf] at hr
-              rw [slice_ok R 4 _ (by omega) (by omega)] at hr
-              simp only [ok_bind, pure_eq_ok, Except.ok.injEq, Prod.mk.injEq] at hr; omega
+              by_cases hz : rd 4 (R.drop 0) % 4 = 2 ∧ 8 ≤ rd 4 (R.drop 0) / 4
+              · rw [if_pos hz] at hr
+                obtain ⟨v, hv⟩ := Proofs.InlineComp.inlineDecompress_total R _ hz.2 (by omega)
+                rw [hv] at hr
+                simp only [ok_bind, pure_eq_ok, Except.ok.injEq, Prod.mk.injEq] at hr; omega
+              · rw [if_neg hz] at hr
+                rw [slice_ok R 4 _ (by omega) (by omega)] at hr
+                simp only [ok_bind, pure_eq_ok, Except.ok.injEq, Prod.mk.injEq] at hr; omega
           rw [uN_eq hag 4 0 (by omega), uN_ok 4 R 0 (by omega)]
           simp only [ok_bind]
           by_cases hf : rd 4 (R.drop 0) / 4 < 4 ∨ R.length < rd 4 (R.drop 0) / 4
           · rw [if_pos hf] at hr ⊢; exact hr
           · rw [if_neg hf] at hr ⊢
-            rw [slice_ok R 4 _ (by omega) (by omega)] at hr
-            simp only [ok_bind, pure_eq_ok, Except.ok.injEq, Prod.mk.injEq] at hr
-            rw [slice_eq hag 4 _ (by omega), slice_ok R 4 _ (by omega) (by omega)]
-            simp only [ok_bind, pure_eq_ok, Except.ok.injEq, Prod.mk.injEq]
-            exact hr
+            by_cases hz : rd 4 (R.drop 0) % 4 = 2 ∧ 8 ≤ rd 4 (R.drop 0) / 4
+            · rw [if_pos hz] at hr ⊢
+              -- the inline-compressed branch reads va_tcinfo and the stream, all inside the consumed bytes
+              have hc0 : c0 = rd 4 (R.drop 0) / 4 := by
+                obtain ⟨v, hv⟩ := Proofs.InlineComp.inlineDecompress_total R _ hz.2 (by omega)
+                rw [hv] at hr
+                simp only [ok_bind, pure_eq_ok, Except.ok.injEq, Prod.mk.injEq] at hr; omega
+              have hinl : inlineDecompress R' (rd 4 (R.drop 0) / 4) = inlineDecompress R (rd 4 (R.drop 0) / 4) := by
+                unfold inlineDecompress
+                rw [uN_eq hag 4 4 (by omega), slice_eq hag 8 _ (by omega)]
+              rw [hinl]; exact hr
+            · rw [if_neg hz] at hr ⊢
+              rw [slice_ok R 4 _ (by omega) (by omega)] at hr
+              simp only [ok_bind, pure_eq_ok, Except.ok.injEq, Prod.mk.injEq] at hr
+              rw [slice_eq hag 4 _ (by omega), slice_ok R 4 _ (by omega) (by omega)]
+              simp only [ok_bind, pure_eq_ok, Except.ok.injEq, Prod.mk.injEq]
+              exact hr
 
 /-- a payload is only returned together with a positive consumed length -/
 theorem readVarlena_some_pos (R v : Bytes) (c0 : Nat) (hr : readVarlena R = .ok (some v, c0)) : 1 ≤ c0 := by
@@ -279,8 +298,14 @@ theorem readVarlena_some_pos (R v : Bytes) (c0 : Nat) (hr : readVarlena R = .ok 
           simp only [ok_bind] at hr
           by_cases hf : rd 4 (R.drop 0) / 4 < 4 ∨ R.length < rd 4 (R.drop 0) / 4
           · rw [if_pos hf] at hr; cases hr
-          · rw [if_neg hf, slice_ok R 4 _ (by omega) (by omega)] at hr
-            simp only [ok_bind, pure_eq_ok, Except.ok.injEq, Prod.mk.injEq] at hr; omega
+          · rw [if_neg hf] at hr
+            by_cases hz : rd 4 (R.drop 0) % 4 = 2 ∧ 8 ≤ rd 4 (R.drop 0) / 4
+            · rw [if_pos hz] at hr
+              obtain ⟨w, hw⟩ := Proofs.InlineComp.inlineDecompress_total R _ hz.2 (by omega)
+              rw [hw] at hr
+              simp only [ok_bind, pure_eq_ok, Except.ok.injEq, Prod.mk.injEq] at hr; omega
+            · rw [if_neg hz, slice_ok R 4 _ (by omega) (by omega)] at hr
+              simp only [ok_bind, pure_eq_ok, Except.ok.injEq, Prod.mk.injEq] at hr; omega
 
 theorem take_eq_of_sameUpTo {R R' : Bytes} {k : Nat} (h : SameUpTo R R' k) (m : Nat) (hm : m ≤ k) :
     R'.take m = R.take m := by
